@@ -53,8 +53,10 @@ def regen(ctx):
 
 def _start_thread_runs(ctx, strength):
     """Fresh process per thread count, started in the background (JIT dominates: ~80 s each)."""
-    fams = ["laplace_sl_only", "potential"] if strength == "quick" else ["laplace_sl", "identity", "potential",
-                                                                    "hypersingular", "maxwell"]
+    # "escalated": a quick-tier run in which a tie/proof/correspondence broke -- all four thread counts, but without the
+    # two slowest kernel families to JIT (hypersingular, Maxwell), so that the verdict arrives in minutes
+    fams = {"quick": ["laplace_sl_only", "potential"], "escalated": ["laplace_sl", "identity", "potential"]}.get(
+        strength, ["laplace_sl", "identity", "potential", "hypersingular", "maxwell"])
     counts = QUICK_THREADS if strength == "quick" else THOROUGH_THREADS
     res = {}
 
@@ -123,6 +125,8 @@ def search(ctx, strength):
         ctx.search_info["evaluations"] += res["scan_evals"]
         for f in res["failures"]:
             ctx.failure(f["signature"], f["what"], f["data"])
+    if strength == "thorough" and ctx.tier != "thorough":
+        strength = "escalated"
     tr = getattr(ctx, "thread_runs", None)
     if tr is None or tr[3] != strength:
         if tr is not None:
